@@ -108,6 +108,16 @@ CORE = {
     "rpaths": ["/", "/a", "/ab"],
 }
 CORE_QUICK = dict(CORE, expiry=["none", "past"])
+# responses with one or two Set-Cookie fields of the same cookie name (different Domain / Path / expiry)
+MULTI = {
+    "hosts": ["example.com", "www.example.com"],
+    "ports": [80],
+    "domains": [None, ".example.com"],
+    "cpaths": [None, "/a"],
+    "expiry": ["none", "past"],
+    "rpaths": ["/", "/a"],
+    "pairs": True,
+}
 
 
 def enc(host, port, dom, cpath, exp):
@@ -192,7 +202,8 @@ def mkflow(host, port, path, set_cookie):
                                       req=tutils.treq(host=host, port=port, path=path.encode()),
                                       resp=set_cookie is not None)
         if set_cookie is not None:
-            f.response.headers["Set-Cookie"] = set_cookie
+            for line in set_cookie:  # a tuple of Set-Cookie field values, one header field each
+                f.response.headers.add("Set-Cookie", line)
     else:
         f.request.headers.pop("cookie", None)
         f.metadata.pop("stickycookie", None)
@@ -213,6 +224,15 @@ class Spec:
                     for h in alpha["hosts"]:
                         for p in alpha["ports"]:
                             acts.append(["resp", h, p, d, c, e])
+        if alpha.get("pairs"):
+            # responses carrying two Set-Cookie fields with the same cookie name (every ordered pair of different cookies)
+            singles = [[d, c, e] for e in alpha["expiry"] for d in alpha["domains"] for c in alpha["cpaths"]]
+            for h in alpha["hosts"]:
+                for p in alpha["ports"]:
+                    for c1 in singles:
+                        for c2 in singles:
+                            if c1 != c2:
+                                acts.append(["resp2", h, p, c1, c2])
         self._acts = acts
 
     # -- system -----------------------------------------------------------------------
@@ -240,18 +260,21 @@ class Spec:
     # -- transitions ------------------------------------------------------------------
     def apply(self, s, a):
         s.bad, s.ok, s.effect = [], [], None
-        if a[0] == "resp":
+        if a[0] in ("resp", "resp2"):
             self._response(s, a)
         else:
             self._request(s, a)
 
     def _response(self, s, a):
-        _, host, port, dom, cpath, exp = a
-        value = enc(host, port, dom, cpath, exp)
+        host, port = a[1], a[2]
+        # one Set-Cookie field per cookie, all with the same cookie name, in this order
+        cookies = [tuple(a[3:6])] if a[0] == "resp" else [tuple(c) for c in a[3:]]
+        lines = tuple(set_cookie_line(enc(host, port, d, c, e), d, c, e) for d, c, e in cookies)
+        exp = "+".join(e for _, _, e in cookies)
         pre_real = real_values(s.sc)
         pre_model = set(s.legit)
         pre_dump = jar_dump(s.sc)
-        f = mkflow(host, port, "/", set_cookie_line(value, dom, cpath, exp))
+        f = mkflow(host, port, "/", lines)
         exc = None
         try:
             s.sc.response(f)
@@ -259,13 +282,14 @@ class Spec:
             raise
         except BaseException as e:
             exc = "%s: %s" % (type(e).__name__, e)
-        # reference model: what may be in the jar
-        if not is_foreign(host, dom):
-            if exp in EXPIRED:
-                same = enc(host, port, dom, cpath, "")
-                s.legit = {v for v in s.legit if not v.startswith(same)}
-            else:
-                s.legit.add(value)
+        # reference model: what may be in the jar (cookies of one response take effect in field order)
+        for dom, cpath, e in cookies:
+            if not is_foreign(host, dom):
+                if e in EXPIRED:
+                    same = enc(host, port, dom, cpath, "")
+                    s.legit = {v for v in s.legit if not v.startswith(same)}
+                else:
+                    s.legit.add(enc(host, port, dom, cpath, e))
         post_real = real_values(s.sc)
         post_model = s.legit
         if exc is not None:
@@ -289,8 +313,9 @@ class Spec:
                 if not was_wrong:
                     new_expired += 1
                     cause = "expired_cookie_stored" if v not in pre_real else "not_removed"
-                    s.bad.append(("expired_removed", {"op": "response", "cause": cause, "expiry": exp},
-                                  "value %s absent from the jar after %s" % (v, set_cookie_line(value, dom, cpath, exp)), where))
+                    s.bad.append(("expired_removed", {"op": "response", "cause": cause, "expiry": exp,
+                                                      "cookies_in_response": len(cookies)},
+                                  "value %s absent from the jar after %s" % (v, list(lines)), where))
         if not new_foreign:
             s.ok.append("foreign_domain_not_stored")
         if not new_expired:
@@ -387,16 +412,20 @@ def run(ctx):
     wide_depth = ctx.pick(2, 3)
     core_depth = ctx.pick(4, 5)
     edge_depth = ctx.pick(2, 3)
+    multi_depth = ctx.pick(3, 4)
     ctx.bounds = {
         "clock": NOW,
         "scopes": "every history up to `depth` over each scope's alphabet (responses: host x port x Domain x Path x "
-                  "expiry; requests: host x port x path)",
+                  "expiry; requests: host x port x path; in the multi scope also responses with two Set-Cookie fields of "
+                  "the same name: every ordered pair of different Domain x Path x expiry cookies)",
         "wide": dict(wide, depth=wide_depth),
         "core": dict(core, depth=core_depth),
         "edge": dict(EDGE, depth=edge_depth),
+        "multi": dict(MULTI, depth=multi_depth),
         "expiry_attributes": EXPIRY,
     }
-    for name, alpha, depth in (("wide", wide, wide_depth), ("edge", EDGE, edge_depth), ("core", core, core_depth)):
+    for name, alpha, depth in (("wide", wide, wide_depth), ("edge", EDGE, edge_depth), ("multi", MULTI, multi_depth),
+                               ("core", core, core_depth)):
         spec = Spec(alpha)
         ctx.log("%s scope: %d actions/state, depth %d" % (name, len(spec._acts), depth))
         states, capped = explore.bfs(spec, depth, ctx.tally, log=ctx.log)
